@@ -157,7 +157,7 @@ func (d *Driver) reqOf(st *Step) Req {
 		hdrs[i] = [2]string{h[0], d.subst(b, h[1])}
 	}
 	r := Req{Method: st.Method, URL: d.scheme(st) + "://" + host + "/", RawTarget: target, HostHdr: st.HostHdr, Headers: hdrs, Body: PlanBytes(d.subst(b, st.Body)),
-		NoJar: st.NoJar, CookieHdr: d.subst(b, st.CookieHdr), Chunked: st.Chunked, NoStore: st.NoStore}
+		NoJar: st.NoJar, CookieHdr: d.subst(b, st.CookieHdr), Chunked: st.Chunked, NoStore: st.NoStore, BodyGap: st.BodyGap}
 	if u, err := url.Parse(d.scheme(st) + "://" + host + target); err == nil && strings.HasPrefix(target, "/") {
 		r.URL = u.String()
 		r.RawTarget = target
@@ -326,6 +326,10 @@ func (d *Driver) twin(st *Step) {
 		// just before its K-th statement in the handlers while the second request runs
 		thePauser.arm(*st.Pause)
 		d.Res.fault("pause.statement")
+		d.Res.FaultFree = false
+	} else if st.BodyGap > 0 {
+		// the first request is held by its own slowly arriving body, inside whatever reads it
+		d.Res.fault("browser.slow-body")
 		d.Res.FaultFree = false
 	} else {
 		d.W.Net.Arm(link, simnet.Fault{Kind: kind, Count: 1, Dur: 100 * time.Millisecond})
